@@ -7,6 +7,8 @@ import Orda.Model.Api
 import Orda.Spec.Denote
 import Orda.Model.Server
 import Orda.Model.Patch
+import Orda.Model.Rest
+import Orda.Model.Fault
 open Lean
 namespace Orda
 
@@ -276,7 +278,7 @@ def Sim.svcStep (s : Sim) (j : Json) : Option (Sim × Json) :=
     let fault := getS j "fault"
     let send (st : Store) : Store × Rpc (List Pack) × List Notification :=
       let (st1, r, ns, jobs) := st.processPushPull col cuid packs
-      let st2 := jobs.foldl (fun acc (duid, colNum) =>
+      let st2 := if fault = "nosnap" then st1 else jobs.foldl (fun acc (duid, colNum) =>
         match acc.collections.find? (fun c => c.num = colNum) with
         | some cd => acc.updateSnapshot duid cd.name
         | none => acc) st1
@@ -304,6 +306,46 @@ def Sim.svcStep (s : Sim) (j : Json) : Option (Sim × Json) :=
       else
         let (s2, posts) := s1.applyPacks rs ps
         some (s2, Json.mkObj (base ++ [("posts", posts)]))
+  | "fsync" =>
+    -- a single-pack sync with a storage fault at the named command
+    let c := getN j "c"
+    let (cl, boundCol) := s.sclients[c]!
+    let r := getN j "r"
+    let p := (s.wdt r).createPack
+    let cls := getS j "cls"
+    let f : FaultAt := match cls with
+      | "find:-_-Collections" => .findCollections | "find:-_-Clients" => .findClients
+      | "find:-_-Datatypes" => .findDatatypes | "find:-_-Operations" => .findOperations
+      | "insert:-_-Operations" => .insertOperations | "update:-_-Datatypes" => .updateDatatypes
+      | "bg:userdoc" => .bgUserDoc | _ => .background
+    let (st1, reply, ns) := s.store.processPushPullFault boundCol cl.cuid p f
+    -- background work: done unless it is the faulted part
+    let pushedSomething := st1.operations.length > s.store.operations.length && f ≠ .updateDatatypes
+    let st2 := match f with
+      | .background => st1
+      | .bgUserDoc =>
+        if pushedSomething then
+          let st' := (match st1.collections.find? (fun cd => cd.name = boundCol) with
+            | some cd => st1.updateSnapshot (s.wdt r).duid cd.name | none => st1)
+          { st' with userDocs := st1.userDocs }
+        else st1
+      | _ =>
+        if pushedSomething then
+          (match st1.collections.find? (fun cd => cd.name = boundCol) with
+            | some cd => st1.updateSnapshot (match reply with | .normal rp => rp.duid | _ => (s.wdt r).duid) cd.name | none => st1)
+        else st1
+    let s1 := { s with store := st2 }
+    let nj := listJ (fun (n : Notification) => Json.mkObj [("topic", Json.str n.topic), ("cuid", Json.str n.cuid),
+          ("duid", Json.str n.duid), ("sseq", jnat n.sseq)]) ns
+    match reply with
+    | .rpcErr code => some (s1, Json.mkObj [("rpc", jnat code), ("resperr", Json.null), ("notifs", nj)])
+    | .errPack code =>
+      let (s2, posts) := s1.applyPacks [r] [errorPack p code]
+      some (s2, Json.mkObj [("rpc", jnat 0), ("resperr", jnat code), ("notifs", nj), ("posts", posts)])
+    | .normal rp =>
+      let (s2, posts) := s1.applyPacks [r] [rp]
+      let code : Nat := match rp.ops with | ⟨_, .error cde⟩ :: _ => (if rp.error then cde else 0) | _ => 0
+      some (s2, Json.mkObj [("rpc", jnat 0), ("resperr", jnat code), ("notifs", nj), ("posts", posts)])
   | "applylate" =>
     let h := getN j "hold"
     match s.held.find? (fun x => x.1 = h) with
@@ -311,6 +353,17 @@ def Sim.svcStep (s : Sim) (j : Json) : Option (Sim × Json) :=
     | some (_, rs, ps) =>
       let (s2, posts) := { s with held := s.held.filter (fun x => x.1 ≠ h) }.applyPacks rs ps
       some (s2, Json.mkObj [("posts", posts)])
+  | "patch" =>
+    let (st1, r, ns, jobs) := s.store.patchDocument (getS j "col") (getS j "key") (JVal.ofJson (getJ j "json"))
+                                (getS j "duid") (getS j "cuid")
+    let st2 := jobs.foldl (fun acc (duid, colNum) =>
+      match acc.collections.find? (fun c => c.num = colNum) with
+      | some cd => acc.updateSnapshot duid cd.name
+      | none => acc) st1
+    some ({ s with store := st2 }, Json.mkObj [("rpc", rpcJ r),
+      ("json", match r with | .ok v => v.toJson | _ => Json.null),
+      ("notifs", listJ (fun (n : Notification) => Json.mkObj [("topic", Json.str n.topic), ("cuid", Json.str n.cuid),
+          ("duid", Json.str n.duid), ("sseq", jnat n.sseq)]) ns)])
   | "store" => some (s, Json.mkObj [("store", storeJ s.store)])
   | _ => none
 
